@@ -19,7 +19,10 @@ EXPLANATION = (
     "out[index] where index is the per-block slice (fused with region only through fuse_slice(region, index) / region), "
     "it happens only under `x is not None`, and load_chunk passes x=None (writes nothing); R25.3 lock.acquire() is paired "
     "with a release in a finally on every exit, in load_store_chunk and in the getter. Region/offset arithmetic "
-    "(fuse_slice) and the npy-stack round trip are not decided."
+    "(fuse_slice) is not decided. R25.7 COVER the npy-stack writer and reader agree on their tables: every key the reader takes "
+    "from the info record is written by to_npy_stack, the info file and the per-block files are named by the same templates on "
+    "both sides (f-string, %-format, str() concatenation and .format spellings normalised), the writer rechunks every non-stack "
+    "axis to one block and records exactly that layout and axis. The values inside the .npy files are NumPy's business."
 )
 ASSUMPTIONS = ["the target's __setitem__ writes exactly the addressed region (third-party stores)", "fuse_slice composes region and block slice exactly (C13, not decided)"]
 TRUSTED = ["CPython ast", "sa.cfg (try/finally modelling)", "sa.purity"]
@@ -53,23 +56,28 @@ def r25_2(ctx):
             ctx.finding(rr, c, f"the store kernel writes the target other than through out[index] ({w.how}): positions outside the block's region can be touched", func=f, node=w.stmt)
         if not guarded:
             ctx.finding(rr, c, "the target is written without the `x is not None` guard (the load-back path would write)", func=f, node=w.stmt)
-    # index is only ever (re)bound to fuse_slice(region, index) or region
+    # index is only ever (re)bound to fuse_slice(region, index) [when both are set] or region [when index is empty];
+    # an if/else statement and a conditional expression are the same thing
+    from ..refguards import _conjuncts, _nnf
+    from .common import chain_conjuncts
+
+    def cases(value, conj):
+        if isinstance(value, ast.IfExp):
+            t = {unparse(x) for x in _conjuncts(_nnf(value.test))}
+            nt = {unparse(x) for x in _conjuncts(_nnf(value.test, False))}
+            return cases(value.body, conj | t) + cases(value.orelse, conj | nt)
+        return [(unparse(value), conj)]
+
+    want = {"fuse_slice(region, index)": {"region", "index"}, "region": {"region", "not index"}}
     for n in body_walk(f.node):
         if isinstance(n, ast.Assign) and any(unparse(t) == "index" for t in n.targets):
-            v = unparse(n.value)
-            rr.inst(site(f, n), index_rebound_to=v)
-            if v not in ("fuse_slice(region, index)", "region"):
-                ctx.finding(rr, site(f, n), f"index is rebound to {v}: the written region is no longer the block slice composed with the requested region", func=f, node=n)
-            else:
-                g = cfg.guards(n)
-                want = {"fuse_slice(region, index)": {("region", True), ("index", True)}, "region": {("region", True), ("index", False)}}[v]
-                have = set()
-                for t, pol in g:
-                    while isinstance(t, ast.UnaryOp) and isinstance(t.op, ast.Not):
-                        t, pol = t.operand, (not pol)
-                    have.add((unparse(t), pol))
-                if have != want:
-                    ctx.finding(rr, site(f, n), f"index = {v} happens under {have}, expected {want}", func=f, node=n)
+            base = chain_conjuncts(cfg, n, f.node, f.module)
+            for v, conj in cases(n.value, set(base)):
+                rr.inst(site(f, n) + f"::{v}", index_rebound_to=v, under=sorted(conj))
+                if v not in want:
+                    ctx.finding(rr, site(f, n), f"index is rebound to {v}: the written region is no longer the block slice composed with the requested region", func=f, node=n)
+                elif conj != want[v]:
+                    ctx.finding(rr, site(f, n), f"index = {v} happens under {sorted(conj)}, expected {sorted(want[v])}", func=f, node=n)
     lc = m.func("load_chunk")
     calls = [n for n in body_walk(lc.node) if isinstance(n, ast.Call) and dotted(n.func) == "load_store_chunk"]
     need(calls, "load_chunk no longer delegates to load_store_chunk")
@@ -300,14 +308,140 @@ def r25_4(ctx):
     return rr
 
 
-RULES = [r25_1, r25_2, r25_3, r25_4, r25_5, r25_6]
+def _name_template(e):
+    """A file-name expression as a template string with ``{}`` for every interpolated value, whatever its spelling
+    (f-string, %-format, str() concatenation, .format); None when not recognised."""
+    if isinstance(e, ast.Constant) and isinstance(e.value, str):
+        return e.value
+    if isinstance(e, ast.JoinedStr):
+        out = ""
+        for v in e.values:
+            if isinstance(v, ast.Constant):
+                out += str(v.value)
+            elif isinstance(v, ast.FormattedValue):
+                spec = unparse(v.format_spec) if v.format_spec is not None else ""
+                out += "{" + (spec.strip("f'\"") if spec.strip("f'\"") not in ("", "d", "s") else "") + "}"
+        return out
+    if isinstance(e, ast.BinOp) and isinstance(e.op, ast.Mod) and isinstance(e.left, ast.Constant) and isinstance(e.left.value, str):
+        import re
+
+        return re.sub(r"%(\d*)[dsi]", lambda m: "{" + (m.group(1) and (":" + m.group(1)) or "") + "}", e.left.value)
+    if isinstance(e, ast.BinOp) and isinstance(e.op, ast.Add):
+        l, r = _name_template(e.left), _name_template(e.right)
+        return None if l is None or r is None else l + r
+    if isinstance(e, ast.Call) and dotted(e.func) == "str" and len(e.args) == 1:
+        return "{}"
+    if isinstance(e, ast.Call) and isinstance(e.func, ast.Attribute) and e.func.attr == "format" and isinstance(e.func.value, ast.Constant):
+        import re
+
+        return re.sub(r"\{[^}:]*(:[^}]*)?\}", lambda m: "{" + ((m.group(1) or "") if (m.group(1) or "") not in (":d", ":s") else "") + "}", e.func.value.value)
+    return None
+
+
+def _join_leaf(e):
+    """The file-name part of os.path.join(dirname, <name>)."""
+    if isinstance(e, ast.Call) and (dotted(e.func) or "").endswith("path.join") and len(e.args) >= 2:
+        return e.args[-1]
+    return None
+
+
+def r25_7(ctx):
+    rr = RuleResult("R25.7", "COVER", "the npy-stack writer and reader agree on their tables: every key the reader takes from the info record is written, the info file and the per-block files have the same name templates on both sides, and the writer merges every non-stack axis into one block", min_instances=5)
+    repo = ctx.repo
+    w = repo.mod("dask_array.io._to_npy_stack").func("to_npy_stack")
+    rm = repo.mod("dask_array.io._from_npy_stack")
+    rc = rm.cls("FromNpyStack")
+    # (a) keys
+    written = set()
+    for n in body_walk(w.node):
+        if isinstance(n, ast.Assign) and isinstance(n.value, ast.Dict) and any(isinstance(c, ast.Call) and (dotted(c.func) or "").endswith("pickle.dump") and c.args and unparse(c.args[0]) == unparse(n.targets[0]) for c in body_walk(w.node)):
+            written |= {k.value for k in n.value.keys if isinstance(k, ast.Constant)}
+        if isinstance(n, ast.Call) and (dotted(n.func) or "").endswith("pickle.dump") and n.args and isinstance(n.args[0], ast.Dict):
+            written |= {k.value for k in n.args[0].keys if isinstance(k, ast.Constant)}
+    need(written, "to_npy_stack writes an info record (dict literal handed to pickle.dump)")
+    read = {}
+    for f in rc.methods.values():
+        aliases = {"self._info"}
+        for n in body_walk(f.node):
+            if isinstance(n, ast.Assign) and unparse(n.value) == "self._info":
+                aliases |= {unparse(t) for t in n.targets}
+        for n in body_walk(f.node):
+            if isinstance(n, ast.Subscript) and unparse(n.value) in aliases and isinstance(n.slice, ast.Constant):
+                read.setdefault(n.slice.value, f)
+            if isinstance(n, ast.Call) and isinstance(n.func, ast.Attribute) and n.func.attr == "get" and unparse(n.func.value) in aliases and n.args and isinstance(n.args[0], ast.Constant):
+                read.setdefault(n.args[0].value, f)
+    need(read, "FromNpyStack reads keys of its info record")
+    for k, f in sorted(read.items()):
+        c = f"{rc.construct}::info[{k!r}]"
+        rr.inst(c, written=k in written, read_in=f.qualname)
+        if k not in written:
+            ctx.finding(rr, c, f"the npy-stack reader takes info[{k!r}] but to_npy_stack writes only {sorted(written)}: reading a written stack back fails or uses a stale default", func=f)
+    # (b) file names
+    def leafs(fnode, callee_tail):
+        out = []
+        for n in ast.walk(fnode):
+            if isinstance(n, (ast.Call, ast.Tuple)):
+                elts = n.args if isinstance(n, ast.Call) else n.elts
+                head = n.func if isinstance(n, ast.Call) else (n.elts[0] if n.elts else None)
+                if head is not None and (dotted(head) or "").endswith(callee_tail):
+                    for a in elts:
+                        leaf = _join_leaf(a)
+                        if leaf is not None:
+                            out.append(leaf)
+        return out
+
+    w_info = [l for n in ast.walk(w.node) if isinstance(n, ast.Call) and dotted(n.func) == "open" and n.args for l in [_join_leaf(n.args[0])] if l is not None]
+    r_info = [l for f in rc.methods.values() for n in ast.walk(f.node) if isinstance(n, ast.Call) and dotted(n.func) == "open" and n.args for l in [_join_leaf(n.args[0])] if l is not None]
+    w_blk = leafs(w.node, "np.save")
+    r_blk = [l for f in rc.methods.values() for l in leafs(f.node, "np.load")]
+    need(w_info and r_info and w_blk and r_blk, "npy-stack file-name expressions (open(join(dirname, ...)), np.save / np.load tasks)")
+    for what, ws, rs in (("info file", w_info, r_info), ("block file", w_blk, r_blk)):
+        wt, rt = {_name_template(x) for x in ws}, {_name_template(x) for x in rs}
+        c = f"{w.construct}::{what} name"
+        rr.inst(c, writer=sorted(map(str, wt)), reader=sorted(map(str, rt)))
+        if None in wt or None in rt:
+            ctx.finding(rr, c, f"the {what} name is built in a form the rule does not recognise (writer {[unparse(x) for x in ws]}, reader {[unparse(x) for x in rs]})", func=w)
+        elif wt != rt:
+            ctx.finding(rr, c, f"the npy-stack writer names the {what} {sorted(wt)} and the reader opens {sorted(rt)}: the round trip cannot find what was written", func=w)
+    # (c) one block per non-stack axis: the writer's rechunk target keeps the axis' own chunks and sum()s the others
+    tgt = [n for n in body_walk(w.node) if isinstance(n, ast.Assign) and any(unparse(t) == "chunks" for t in n.targets)]
+    need(tgt, "to_npy_stack computes its rechunk target `chunks`")
+    v = tgt[0].value
+    ok = False
+    for g in ast.walk(v):
+        if isinstance(g, ast.IfExp):
+            from ..refguards import _nnf
+
+            t = unparse(_nnf(g.test))
+            body, other = (g.body, g.orelse) if t in ("i == axis", "axis == i") else ((g.orelse, g.body) if t in ("i != axis", "axis != i") else (None, None))
+            if body is not None and unparse(body) == "c" and "sum(c)" in unparse(other):
+                ok = True
+    rr.inst(site(w, tgt[0])[:150], merges_other_axes=ok)
+    if not ok:
+        ctx.finding(rr, site(w, tgt[0])[:150], "to_npy_stack no longer rechunks every non-stack axis to a single block: one file per stack block would hold only part of the slab and the reader's key/file zip misaligns", func=w, node=tgt[0])
+    saved = [n for n in body_walk(w.node) if isinstance(n, ast.Call) and dotted(n.func) == "rechunk"]
+    rr.inst(w.construct + "::rechunk(x, chunks)", present=bool(saved), info_chunks=next((unparse(vv) for n in body_walk(w.node) if isinstance(n, ast.Dict) for k, vv in zip(n.keys, n.values) if isinstance(k, ast.Constant) and k.value == "chunks"), None))
+    if not saved or not any(len(n.args) >= 2 and unparse(n.args[1]) == "chunks" for n in saved):
+        ctx.finding(rr, w.construct + "::rechunk(x, chunks)", "the array written by to_npy_stack is not rechunked to the layout recorded in the info record", func=w)
+    for n in body_walk(w.node):
+        if isinstance(n, ast.Dict):
+            for k, vv in zip(n.keys, n.values):
+                if isinstance(k, ast.Constant) and k.value == "chunks" and unparse(vv) != "chunks":
+                    ctx.finding(rr, w.construct + "::info['chunks']", f"the info record stores chunks={unparse(vv)}, not the layout the blocks are written in", func=w, node=n)
+                if isinstance(k, ast.Constant) and k.value == "axis" and unparse(vv) != "axis":
+                    ctx.finding(rr, w.construct + "::info['axis']", f"the info record stores axis={unparse(vv)}, not the stack axis", func=w, node=n)
+    return rr
+
+
+RULES = [r25_1, r25_2, r25_3, r25_4, r25_5, r25_6, r25_7]
 
 LEVEL_TEXT = (
     "Static decision of the structural clauses of C25: the per-block target-slice literals of da.store are computed from a "
     "layout-pinned source (the clause whose violation was a genuine defect, fixed in /repo), the store kernel's only "
     "writes are out[index] under the x-is-not-None guard with index composed only through fuse_slice(region, index), and "
     "the lock is released on every exit (CFG with try/finally and exceptional edges). Which values land where "
-    "(fuse_slice arithmetic) and the npy-stack round trip are not decided."
+    "(fuse_slice arithmetic) is not decided. For the npy-stack round trip the writer's and the reader's tables agree (info keys, "
+    "file-name templates, one block per non-stack axis, recorded layout = written layout)."
 )
 LEVEL_NOTE = "Trusted: CPython ast, engine CFG incl. exceptional edges, alias analysis. Assumes third-party targets implement __setitem__ faithfully."
-TECHNIQUE = "static analysis: payload-layout must-pass rule + effect analysis of the store kernel + acquire/release pairing on the CFG (ast)"
+TECHNIQUE = "static analysis: payload-layout must-pass rule + effect analysis of the store kernel + acquire/release pairing on the CFG + writer/reader table agreement (ast)"
